@@ -42,6 +42,11 @@ def gen_cases(tier, seed):
                  "mode": special | rwx, "mtime_ns": r.choice(MTIMES) + r.randrange(1000), "atime_ns": r.choice(MTIMES)}
             if r.random() < 0.6:
                 e["xattrs"] = {"user.a%d" % k: r.choice(["v%d" % r.randrange(10000), "", "\x00\x01\xff bin", "x" * 300]) for k in range(r.randint(1, 4))}
+            if e.get("xattrs") and r.random() < 0.3:
+                # an attribute outside the user namespace listed *before* the user ones: an unprivileged copier cannot set it
+                # (EPERM), which is tolerated -- the user attributes after it still have to arrive
+                cap = "\x01\x00\x00\x02\x00\x20\x00\x00\x00\x00\x00\x00\x00\x00\x00\x00\x00\x00\x00\x00"
+                e["xattrs"] = dict([("security.capability", cap)] + list(e["xattrs"].items()))
             if r.random() < 0.6:
                 e["uid"], e["gid"] = r.choice([(0, 0), (1000, 1000), (1, 2), (65534, 65534), (12345, 0), (0, 54321)])
             spec.append(e)
@@ -72,7 +77,11 @@ def run_case(case):
                     os.lchown(q, 65534, 65534)
                     if not os.path.islink(q):
                         os.chmod(q, m_ & 0o7777)      # chown cleared the set-id bits: put the requested mode back
-            tree.fix_mtimes(root, case["spec"] + case["pre"]) if hasattr(tree, "fix_mtimes") and False else None
+            for e in case["spec"]:
+                # (chown drops file capabilities: put the attribute back, then the mtime the setxattr did not touch anyway)
+                if "security.capability" in (e.get("xattrs") or {}):
+                    q = os.path.join(b(root), b(e["p"]))
+                    os.setxattr(q, b"security.capability", b(e["xattrs"]["security.capability"]))
         pre = tree.snapshot(root, content=False)
         t0 = time.time_ns()
         if case["sched"] == "os":
